@@ -9,6 +9,7 @@ Open Scope N_scope.
 
 Definition fsm_exec_sound' := fsm_exec_sound num_sound.
 Definition fsm_sound_partial' := fsm_sound_partial num_sound.
+Definition fsm_sound_sharp' := fsm_sound_sharp num_sound.
 Definition fsm_complete' := fsm_complete num_sound num_complete.
 Definition step_shorter' := step_shorter num_sound.
 
@@ -26,12 +27,12 @@ Proof. intros. unfold skip_string_1. rewrite (advance_string_default_fuel f1 f2)
 
 Lemma fsm_value_fuel : forall f1 f2 slen st ch rest, (length rest <= f1)%nat -> (length rest <= f2)%nat ->
   fsm_value f1 slen st ch rest = fsm_value f2 slen st ch rest.
-Proof. intros. unfold fsm_value. rewrite (skip_string_fuel f1 f2); auto. Qed.
+Proof. intros. unfold fsm_value, fsm_value_g. rewrite (skip_string_fuel f1 f2); auto. Qed.
 
 Lemma fsm_step_fuel : forall f1 f2 slen t st s, (length s <= f1)%nat -> (length s <= f2)%nat ->
   fsm_step f1 slen t st s = fsm_step f2 slen t st s.
 Proof.
-  intros f1 f2 slen t st s H1 H2. unfold fsm_step.
+  intros f1 f2 slen t st s H1 H2. unfold fsm_step, fsm_step_g; fold fsm_value.
   destruct (advance_ns s) as [ch rest] eqn:E. apply advance_ns_length in E.
   rewrite (skip_string_fuel f1 f2), (fsm_value_fuel f1 f2 slen st), (fsm_value_fuel f1 f2 slen (FSM_ARR :: st)) by lia.
   reflexivity.
@@ -44,7 +45,7 @@ Theorem fsm_fuel_enough : forall f1 f2 slen st s, (length s < f1)%nat -> (length
 Proof.
   induction f1 as [|f1 IH]; intros f2 slen st s H1 H2; [lia|].
   destruct f2 as [|f2]; [lia|].
-  destruct st as [|t st]; cbn [fsm_exec_1]; [split; [discriminate|reflexivity]|].
+  destruct st as [|t st]; exec_unfold; [split; [discriminate|reflexivity]|].
   rewrite (fsm_step_fuel (S f1) (S f2)) by lia.
   destruct (fsm_step (S f2) slen t st s) as [[st2 s2]|e|] eqn:ES; try (split; [discriminate|reflexivity]).
   pose proof (step_shorter' _ _ _ _ _ _ _ ES ltac:(lia)) as Hsh.
@@ -103,6 +104,21 @@ Proof.
   exists w, val. rewrite (drop_ws_value w val r _ Hw Hv). auto.
 Qed.
 
+(* the same with the exact shape of the exception: a bare top-level string, blank* quote body, with body in the
+   defect class, consumed to the end of the input *)
+Definition bare_bug_string (s : list N) : Prop :=
+  exists w body, s = w ++ 34 :: body /\ all_ws w /\ bug_class body = true.
+
+Theorem skip_one_sound_sharp : forall s v r, skip_one s = Ok (v, r) ->
+  (exists w val, s = w ++ val ++ r /\ v = val ++ r /\ all_ws w /\ sval MAX_RECURSE val) \/ (r = [] /\ bare_bug_string s).
+Proof.
+  intros s v r H. unfold skip_one, skip_one_at in H.
+  destruct (fsm_exec_1 (S (length s)) (length s) [FSM_VAL] s) as [[r0|e|]|] eqn:E; try discriminate.
+  inversion H; subst. clear H.
+  destruct (fsm_sound_sharp' _ _ _ _ E ltac:(lia)) as [(w & val & -> & Hw & Hv)|B]; [left|right; auto].
+  exists w, val. rewrite (drop_ws_value w val r _ Hw Hv). auto.
+Qed.
+
 (* completeness: blanks, a structural value needing at most MAX_RECURSE frames, then anything that does not
    continue a number: accepted with exactly the span of the value *)
 Theorem skip_one_complete : forall w v r,
@@ -153,6 +169,34 @@ Proof.
   intros s NB. split.
   - intros H. destruct (valid_sound_partial s H); tauto.
   - apply valid_complete.
+Qed.
+
+Theorem valid_sound_sharp : forall s, Valid s = Ok true -> structurally_valid s \/ bare_bug_string s.
+Proof.
+  intros s H. unfold Valid, Valid_post in H. destruct s as [|c0 s0] eqn:Es; [discriminate|]. rewrite <- Es in *.
+  destruct (validate_one s) as [[v r]|e|] eqn:E; try discriminate.
+  inversion H as [H1]. apply forallb_space_mask in H1.
+  destruct (skip_one_sound_sharp s v r E) as [(w & val & Hs & _ & Hw & Hv)|[_ B]]; [left|right; auto].
+  exists w, val, r. auto.
+Qed.
+
+(* a bare unterminated string of the defect class is indeed accepted: the guard of valid_iff_sharp is exact *)
+Theorem valid_on_bare_bug_string : forall s, bare_bug_string s -> Valid s = Ok true.
+Proof.
+  intros s (w & body & -> & Hw & B). unfold Valid, Valid_post, validate_one, skip_one_at.
+  destruct (bug_class_unterminated body B) as (_ & L32 & _).
+  assert (Hb : body <> []) by (destruct body; [cbn in L32; lia|discriminate]).
+  assert (E : fsm_exec_1 (S (length (w ++ 34 :: body))) (length (w ++ 34 :: body)) [FSM_VAL] (w ++ 34 :: body) = Some (Ok [])).
+  { exec_unfold. unfold fsm_step, fsm_step_g; fold fsm_value. rewrite advance_ns_app by auto. ev. unfold fsm_value, fsm_value_g. ev.
+    unfold skip_string_1. rewrite advance_string_default_spec; auto.
+    - rewrite B. cbn [bind]. destruct (length (w ++ 34 :: body)); reflexivity.
+    - rewrite app_length. cbn [length]. lia. }
+  rewrite E. destruct (w ++ 34 :: body) eqn:Es; [destruct w; discriminate|]. reflexivity.
+Qed.
+
+Theorem valid_iff_sharp : forall s, Valid s = Ok true <-> structurally_valid s \/ bare_bug_string s.
+Proof.
+  intros s. split; [apply valid_sound_sharp|]. intros [H|H]; [apply valid_complete|apply valid_on_bare_bug_string]; auto.
 Qed.
 
 (* Decoder.CheckTrailings after a capture by skip_one (json.RawMessage, Unmarshaler, ast.Node) *)
